@@ -767,11 +767,9 @@ func (rc *RegClient) imageCopyOpt(ctx context.Context, refSrc ref.Ref, refTgt re
 				done = true // happy path
 			}
 		} else {
-			if errors.Is(err, context.Canceled) {
+			if errNext := <-waitCh; errNext != nil && errors.Is(err, context.Canceled) {
 				// try to find a better error message than context canceled
-				err = <-waitCh
-			} else {
-				<-waitCh
+				err = errNext
 			}
 		}
 		if !done {
@@ -921,11 +919,9 @@ func (rc *RegClient) imageCopyOpt(ctx context.Context, refSrc ref.Ref, refTgt re
 				cancel()
 			}
 		} else {
-			if errors.Is(err, context.Canceled) {
+			if errNext := <-waitCh; errNext != nil && errors.Is(err, context.Canceled) {
 				// try to find a better error message than context canceled
-				err = <-waitCh
-			} else {
-				<-waitCh
+				err = errNext
 			}
 		}
 		waitCount--
